@@ -288,6 +288,20 @@ def load():
     return importlib.import_module('verif_het')
 
 
+def perturb(calib, rng, scale=0.06):
+    """a calibration in a box around `calib` (thorough tier): prices, preferences and risk parameters are moved by up to +-scale, asset-grid sizes by a few points"""
+    out = dict(calib)
+    for k, v in calib.items():
+        if k in ('r', 'rb', 'ra', 'beta', 'eis', 'sd_e', 'sigma_s', 'sigma_z', 'w', 'atw', 'frisch', 'vphi', 'chi1', 'tax', 'Div', 'transfer', 'sigma') and isinstance(v, float):
+            nv = v * (1 + scale * rng.uniform(-1, 1))
+            if k == 'beta':
+                nv = min(nv, 0.985)
+            out[k] = nv
+        elif k in ('n_a', 'nA') and isinstance(v, int):
+            out[k] = v + rng.randint(-3, 4)
+    return out
+
+
 # ----------------------------------------------------------------------------------------------------------
 # independent reference operators
 
